@@ -1,1 +1,95 @@
-def main : IO Unit := pure ()
+import NfcVerif.Model.Collect
+open NfcVerif NfcVerif.Collect
+
+/-! line protocol:
+  collect <sendMiu> <icv> <agf 0|1> <entry>|<entry>|...
+  entry  := S;<sock>;...;L=<pdus>      (ServiceAccessPoint)   |  D;<nres>;<tid.nl,...>;<pdus>   (ServiceDiscovery)
+  sock   := raw=<pdus> | ldl=<pdus> | dlc<e><b><s>.<rw>.<cnt>.<ack>.<confs>=<pdus>      (flags 0/1)
+  pdus   := "-" | kind.hdr.len.id,...
+reply: `none` | `single <pdu>` | `agf <pdus>` followed by ` # ` and the new state in the same syntax -/
+
+def kindOf : String → Option Kind
+  | "ui" => some .ui | "i" => some .i | "rr" => some .rr | "dm" => some .dm
+  | "frmr" => some .frmr | "snl" => some .snl | "other" => some .other | _ => none
+def kindStr : Kind → String
+  | .ui => "ui" | .i => "i" | .rr => "rr" | .dm => "dm" | .frmr => "frmr" | .snl => "snl" | .other => "other"
+
+def parsePdu (s : String) : Option QPdu :=
+  match s.splitOn "." with
+  | [k, h, l, i] => match kindOf k, h.toNat?, l.toNat?, i.toNat? with
+    | some k, some h, some l, some i => some ⟨k, h, l, i⟩
+    | _, _, _, _ => none
+  | _ => none
+def parsePdus (s : String) : Option (List QPdu) :=
+  if s = "-" then some [] else (s.splitOn ",").mapM parsePdu
+def showPdu (p : QPdu) : String := s!"{kindStr p.kind}.{p.hdr}.{p.len}.{p.id}"
+def showPdus (l : List QPdu) : String := if l.isEmpty then "-" else ",".intercalate (l.map showPdu)
+
+def bit (c : Char) : Bool := c = '1'
+def bstr (b : Bool) : String := if b then "1" else "0"
+
+def parseSock (s : String) : Option Sock :=
+  match s.splitOn "=" with
+  | [t, q] => match parsePdus q with
+    | none => none
+    | some q =>
+      if t = "raw" then some (.raw q) else if t = "ldl" then some (.ldl q)
+      else match t.splitOn "." with
+        | [f, rw, cnt, ack, confs] =>
+          match f.toList, rw.toNat?, cnt.toNat?, ack.toNat?, confs.toNat? with
+          | ['d', 'l', 'c', e, b, s], some rw, some cnt, some ack, some confs =>
+            some (.dlc (bit e) (bit b) (bit s) rw cnt ack confs q)
+          | _, _, _, _, _ => none
+        | _ => none
+  | _ => none
+def showSock : Sock → String
+  | .raw q => "raw=" ++ showPdus q
+  | .ldl q => "ldl=" ++ showPdus q
+  | .dlc e b s rw cnt ack confs q =>
+    "dlc" ++ bstr e ++ bstr b ++ bstr s ++ s!".{rw}.{cnt}.{ack}.{confs}=" ++ showPdus q
+
+def parseReq (s : String) : Option (List (Nat × Nat)) :=
+  if s = "-" then some [] else
+  (s.splitOn ",").mapM fun x => match x.splitOn "." with
+    | [a, b] => match a.toNat?, b.toNat? with | some a, some b => some (a, b) | _, _ => none
+    | _ => none
+def showReq (l : List (Nat × Nat)) : String :=
+  if l.isEmpty then "-" else ",".intercalate (l.map fun x => s!"{x.1}.{x.2}")
+
+def parseEnt (s : String) : Option Ent :=
+  match s.splitOn ";" with
+  | "D" :: [n, req, dm] => match n.toNat?, parseReq req, parsePdus dm with
+    | some n, some req, some dm => some (.sd ⟨List.replicate n 0, req, dm⟩)
+    | _, _, _ => none
+  | "S" :: rest =>
+    match rest.reverse with
+    | l :: socks =>
+      match (l.splitOn "="), socks.reverse.mapM parseSock with
+      | ["L", q], some socks => match parsePdus q with
+        | some q => some (.sap ⟨socks, q⟩)
+        | none => none
+      | _, _ => none
+    | [] => none
+  | _ => none
+def showEnt : Ent → String
+  | .sd s => s!"D;{s.sdres.length};{showReq s.sdreq};{showPdus s.dmpdu}"
+  | .sap s => "S;" ++ ";".intercalate (s.socks.map showSock ++ ["L=" ++ showPdus s.sendList])
+
+def showState (es : List Ent) : String := if es.isEmpty then "-" else "|".intercalate (es.map showEnt)
+
+def handle (line : String) : String :=
+  match line.splitOn " " with
+  | ["collect", m, icv, a, st] =>
+    match m.toNat?, icv.toNat?, (if st = "-" then some [] else (st.splitOn "|").mapM parseEnt) with
+    | some m, some icv, some es =>
+      let r := collect es m icv (a = "1")
+      let f := match r.1 with
+        | none => "none"
+        | some (.single p) => "single " ++ showPdu p
+        | some (.agf l) => "agf " ++ showPdus l
+      let info := match r.1 with | none => 0 | some f => f.info
+      s!"{f} info={info} # {showState r.2}"
+    | _, _, _ => "bad-op"
+  | _ => "bad-op"
+
+def main : IO Unit := runDriver handle
